@@ -43,7 +43,7 @@ def check(prop, tier):
     totals["calls"] += nres["calls"]
     totals["compared"] += nres["compiled"]
     run = run_cases(t, groups=casegroups)
-    crecs = flatten(run, lambda r: r["case"]["op"] in ops and r["kind"] in ("C01", "C02", "error"))
+    crecs = flatten(run, lambda r: r["case"]["op"] in ops and r["kind"] in ("C01", "C02", "error", "range"))
     # the one-call disagreements that are C01's recorded findings are not law violations
     for r in crecs:
         r["tag"] = "case"
@@ -56,6 +56,13 @@ def check(prop, tier):
         recs.append(r)
     totals["calls"] += ares["calls"]
     totals["compared"] += ares["elements"]
+    # ... and compiled with numba.njit (its overloads re-implement lookup, argument order and wrapping per operation)
+    jres = numbax.replay([c for c in run["cases"] if c["op"] in ops], [], tier="quick" if tier == "quick" else "full",
+                         seed=common.seed() + 2, only_jobs=True)
+    for r in jres["records"]:
+        recs.append(r)
+    totals["calls"] += jres["calls"]
+    totals["compared"] += jres["compiled"]
     ncases = len([c for c in run["cases"] if c["op"] in ops])
     ccalls = sum(m["calls"] for m in run["modes"].values())
     v = common.Verdicts(prop)
@@ -71,7 +78,7 @@ def check(prop, tier):
         "samples": [{"name": p["name"], "code": p["code"], "asserts": p["asserts"]} for p in progs[:: max(1, len(progs) // 2)][:2]],
         "law_programs": len(progs), "law_names": names,
         "law_assertions": pstats["asserts"], "law_assertions_decided_exactly_by_TLC": pstats["decided_asserts"],
-        "signature_variants_per_program": variants, "programs_also_compiled_with_numba": nres["compiled"],
+        "signature_variants_per_program": variants, "programs_also_compiled_with_numba": nres["compiled"], "one_call_jobs_compiled_with_numba": jres["jobs"],
         "implementation_calls": totals["calls"] + ccalls,
         "comparisons": totals["compared"] + sum(m["compared"] for m in run["modes"].values()),
         "one_call_cases": ncases, "array_backend_calls": ares["calls"], "array_elements_compared": ares["elements"],
